@@ -764,6 +764,15 @@ set_option maxRecDepth 20000 in
 example : parseManifest (Jar.asc "Manifest-Version: 1.0\r\nImplementation-Title: Commons Lang\r\nBundle-SymbolicName: org.x.lang3;singleton:=true\r\nBundle-Name: lang3\r\nBundle-Version: 3.12\r\n\r\nName: x\r\nBundle-Version: 0\r\n") =
     .ok (Jar.asc "org.x.lang3:lang3") (Jar.asc "3.12") := by decide
 
+set_option maxRecDepth 20000 in
+/-- The full statement fails for folded lines: a value continued on a line
+    that starts with one space (how `java.util.jar` folds at 72 bytes) is read
+    with a space at the fold — the MIME reader's rule, not the manifest's
+    (recorded finding jar-manifest-continuation-space). -/
+theorem jar_manifest_continuation_counterexample :
+    parseManifest (Jar.asc "Manifest-Version: 1.0\r\nBundle-SymbolicName: org.a\r\nBundle-Version: 1.0.0-lo\r\n ng\r\n\r\n") =
+      .ok (Jar.asc "org.a") (Jar.asc "1.0.0-lo ng") := by decide
+
 /-- `<artifact>-<version>.jar`: any artifact of printable characters, a version
     that starts with a digit, consists of letters, digits, dots and dashes and
     holds no dash followed by a digit, is read back as written. -/
